@@ -108,6 +108,17 @@ def _neighbours(v):
         res += [math.nextafter(v, math.inf), math.nextafter(v, -math.inf), v + 1.0, repr(v), -v]
         if v == int(v):
             res += [int(v), int(v) + 1]
+    if isinstance(v, (int, float)) and not isinstance(v, bool) and not (isinstance(v, int) and v.bit_length() > 3000):
+        # the same number - or its nearest neighbours - as a Decimal / Fraction (exact comparison, no detour through a double)
+        import decimal
+        import fractions
+
+        try:
+            res += [decimal.Decimal(v), fractions.Fraction(v), decimal.Decimal(repr(v)), fractions.Fraction(repr(v)), fractions.Fraction(v) + fractions.Fraction(1, 10 ** 30)]
+            if isinstance(v, int):
+                res += [decimal.Decimal(v + 1), fractions.Fraction(2 * v + 1, 2)]
+        except (ValueError, OverflowError, decimal.InvalidOperation):
+            pass
     out = []
     for x in res:
         if not any(type(x) is type(y) and (x == y) and repr(x) == repr(y) for y in out):
